@@ -103,6 +103,15 @@ func tableObligations(P *Program, tb *TableSpec) (obls []*Obligation, drift []st
 	}
 	for _, key := range order {
 		fnName := entries[key]
+		if tb.StrMap {
+			os, err := strmapEntryObligation(P, tb, key, strings.Trim(fnName, "\""), entries)
+			if err != nil {
+				drift = append(drift, err.Error())
+				continue
+			}
+			obls = append(obls, os...)
+			continue
+		}
 		o, err := tableEntryObligation(P, tb, key, fnName)
 		if err != nil {
 			drift = append(drift, err.Error())
@@ -417,5 +426,33 @@ func refineOne(P *Program, ic *FuncContract, ifaceT types.Type, c *FuncContract,
 			lemma: &lemmaVC{script: e.script(bg, "(assert "+not(goal)+")", nil)}}
 	}
 	obls = append(obls, build("pre"), build("post"))
+	return obls, nil
+}
+
+// strmapEntryObligation: for an entry k ↦ v of a map[string]string literal, the
+// strmap's sem clauses hold with the key and value variables bound to k and v.
+func strmapEntryObligation(P *Program, tb *TableSpec, key, val string, entries map[string]string) (obls []*Obligation, err error) {
+	defer func() {
+		if r := recover(); r != nil {
+			if se, ok := r.(specError); ok {
+				err = fmt.Errorf("strmap %s[%q]: %s", tb.Var, key, se.msg)
+				return
+			}
+			panic(r)
+		}
+	}()
+	for k, sem := range tb.Sem {
+		e := newEnc(P)
+		fv := &FuncVC{P: P, e: e, name: "strmap:" + tb.Var, oblCount: map[string]int{}, assumptions: map[string]bool{}, oblBlk: -1}
+		st := &State{kind: sEntry, h: map[string]Term{}, fv: fv}
+		env := &Env{e: e, vars: map[string]TV{}, st: st, old: st, pkg: tb.Pkg, alloc0: st.get("alloc")}
+		env.vars[tb.KeyVar] = TV{e.strLit(key), tyString}
+		env.vars[tb.ValVar] = TV{e.strLit(val), tyString}
+		goal := env.trBool(sem.E)
+		oname := fmt.Sprintf("%s.strmap:%s[%s]/sem%d", shortPkg(tb.Pkg), tb.Var, key, k)
+		obls = append(obls, &Obligation{Name: oname, Kind: "table", Props: tb.Props, Func: oname, Pos: fmt.Sprintf("%s:%d", tb.File, tb.Line),
+			Desc: fmt.Sprintf("entry %q ↦ %q of %s satisfies %s", key, val, tb.Var, exprString(sem.E)), Goal: goal,
+			lemma: &lemmaVC{script: e.script(fv.bg, "(assert "+not(goal)+")", nil)}})
+	}
 	return obls, nil
 }
